@@ -23,6 +23,7 @@ RULE = ("Hypothesis: well-formed notes on 2 channels over 3-4 pitches (same pitc
         "case digest.")
 RULE = RULE + RULE_EXTRA
 RULE = RULE + " Round h: quantise() with the default step sizes, shifts beyond 2**53."
+RULE = RULE + " Round k: the end of the quantised sequence must lie on the grid."
 ASSUMPTIONS = ["inputs respect the library's tie convention (note-off before note-on of the same key on one tick)",
                "the trailing INTERNAL marker (total duration) is not an 'event' of the statement and is not checked"]
 TIERS = {"quick": dict(shards=8, examples=1500, alt_ppqn=[480], alt_shards=2),
@@ -140,6 +141,8 @@ def check(case):
         if not any(e[0] % s == 0 for s in steps):
             out.fail("off-grid", f"event {e} steps {steps}")
             break
+    if not any(d1 % s == 0 for s in steps):
+        out.fail("end-off-grid", f"the quantised sequence ends on tick {d1} (before: {d0}), steps {steps}")
     # 2 well-formed
     notes1, an1 = O.notes(ev1)
     if an1:
